@@ -139,22 +139,95 @@ def clause_c(facts, rep):
 
 
 def clause_d(facts, rep):
+    """I64toa: evaluated (sv/minterp.py) for the boundary values of int64: it stores '-' first, hands U64toa the
+    position buf + (val < 0) and the magnitude |val| as an unsigned value, and computing that magnitude has no
+    undefined behaviour - in particular not for INT64_MIN, whose signed negation does not exist."""
+    from ..minterp import Interp, Unsupported, UndefinedBehaviour
+    n = 0
     for f in facts.functions:
         if f.qn != NS + 'I64toa':
             continue
         rep.fn(f)
-        txt = ' ; '.join(show(s) for _, _, s in f.stmts())
-        minus = any(e.get('k') == 'bin' and e['op'] == '=' and cval(e['r']) == 45 for _, _, _, e in f.walk())
-        rep.check(minus, 'E2.sign', f.qn, "stores '-' at the start of the buffer", f.loc, txt[:200], facts.config)
-        # the digits start at buf + neg and the magnitude is -val when negative
-        ok = False
-        for bid, i, s, e in f.walk():
-            if e.get('k') == 'call' and e.get('cname') == 'U64toa':
-                a0, a1 = strip(e['args'][0]), strip(e['args'][1])
-                adv = a0.get('k') == 'bin' and a0['op'] == '+' and strip(a0['r']).get('k') == 'ref'
-                mag = a1.get('k') == 'cond' and any(x.get('k') == 'un' and x['op'] == '-' for x in walk(a1['a']))
-                ok = adv and mag
-        rep.check(ok, 'E2.sign', f.qn, 'digits written at buf + neg, magnitude negated when negative', f.loc, txt[:200], facts.config)
+        n += 1
+        pb, pv = f.params[0]['id'], f.params[1]['id']
+        bad = None
+        ub = None
+        minus = True
+        try:
+            for val in (-(1 << 63), -(1 << 63) + 1, -10 ** 18, -10, -1, 0, 1, 9, 10 ** 18, (1 << 63) - 1):
+                seen = []
+
+                def hook(e, args, env, members):
+                    if e.get('cname') == 'U64toa':
+                        seen.append(args)
+                        return 0
+                    return None
+                it = Interp(f, facts, call_hook=hook)
+                try:
+                    it.run({pb: 4096, pv: val}, {})
+                except UndefinedBehaviour as ex:
+                    ub = 'val = %d: %s' % (val, ex)
+                    break
+                if len(seen) != 1 or seen[0][0] != 4096 + (1 if val < 0 else 0) or seen[0][1] != abs(val):
+                    bad = 'val = %d: U64toa called with %s, expected (buf + %d, %d)' % (val, seen, 1 if val < 0 else 0, abs(val))
+                    break
+                if val < 0 and not any(v == 45 for _, v in it.mem_stores):
+                    minus = False
+        except Unsupported as ex:
+            raise AnalysisBroken('C08.d: I64toa not evaluable: %s' % ex)
+        rep.check(minus, 'E2.sign', f.qn, "stores '-' at the start of the buffer for negative values", f.loc, '', facts.config)
+        rep.check(bad is None, 'E2.sign', f.qn, 'digits written at buf + (val < 0), magnitude |val| passed as uint64', f.loc, bad or '', facts.config)
+        rep.check(ub is None, 'E2.sign', f.qn, 'the magnitude is computed without undefined behaviour for every int64 (boundary values evaluated)', f.loc,
+                  (ub or '') + ' - negate in unsigned arithmetic', facts.config)
+    rep.require(n >= 1, 'C08.d: I64toa not found')
+
+
+def clause_e(facts, rep):
+    """Scalar multiply-shift quotients in the digit splitters: every  (v * M) >> S  with constants M, S in itoa.h
+    divides by D = round(2^S / M); D must be a power of ten and the identity (x*M)>>S == x / D must hold for every x
+    the interval analysis allows for v at that point (checked exhaustively up to 2^22 values, by the exact-division
+    theorem beyond).  Plain / and % need no proof.  The number of such sites may be zero."""
+    tables = table_value_ranges(facts)
+    n = 0
+    for f in facts.functions:
+        if not f.loc.split(':')[0].endswith('internal/itoa.h'):
+            continue
+        sites = []
+        for bid, i, st, e in f.walk():
+            if e.get('k') == 'bin' and e['op'] == '>>' and cval(e['r']) is not None and cval(e) is None:
+                l = strip(e['l'])
+                if l is not None and l.get('k') == 'bin' and l['op'] == '*':
+                    for a, b in ((l['l'], l['r']), (l['r'], l['l'])):
+                        if cval(b) is not None and cval(a) is None and strip(a) is not None and strip(a).get('k') == 'ref':
+                            sites.append((bid, i, e, strip(a), cval(b), cval(e['r'])))
+        if not sites:
+            continue
+        rep.fn(f)
+        iv = intervals_for(facts, f, tables)
+        for bid, i, e, v, M, S in sites:
+            st = iv.at(bid, i)
+            if st is None:
+                continue
+            r = iv.ev(v, dict(st))
+            n += 1
+            D = max(1, round((1 << S) / M)) if M else 0
+            pow10 = D >= 10 and str(D).strip('0') == '1'
+            bad = None
+            if r is None or r[0] < 0 or r[1] > 2 ** 64:
+                bad = 'range of %s unknown' % v.get('name')
+            elif not pow10:
+                bad = '2^%d / %d is not a power of ten (%.3f)' % (S, M, (1 << S) / M if M else 0)
+            elif r[1] - r[0] <= 1 << 22:
+                for x in range(r[0], r[1] + 1):
+                    if (x * M) >> S != x // D:
+                        bad = '%s = %d: (x*%d)>>%d = %d but x/%d = %d' % (v.get('name'), x, M, S, (x * M) >> S, D, x // D)
+                        break
+            else:
+                ok, err = exact_division_theorem(M, S, D, r[1] + 1)
+                if not ok:
+                    bad = 'exact-division theorem fails for %s < %d (error term %s)' % (v.get('name'), r[1] + 1, err)
+            rep.check(bad is None, 'E5.reciprocal', f.qn, '%s == %s / %d for %s in %s' % (show(e), v.get('name'), D, v.get('name'), r), locline(e['loc']), bad or '', facts.config)
+    rep.extra['scalar_reciprocal_sites'] = n
 
 
 def run(rep, tier):
@@ -166,6 +239,7 @@ def run(rep, tier):
         clause_b(facts, rep)
         clause_c(facts, rep)
         clause_d(facts, rep)
+        clause_e(facts, rep)
         from .. import narrowing
         narrowing.check(facts, rep, 'E3.lossless-narrowing', ('itoa.h',), min_sites=1)
     rep.trust('clang 14 front end and constant evaluator', 'Intel intrinsic lane semantics in sv/sse_interp.py',
